@@ -4,6 +4,7 @@ import CedarVerif.Lemmas.SyntaxPolicy
 import CedarVerif.Lemmas.SyntaxPolicySound
 import CedarVerif.Lemmas.SyntaxLex
 import CedarVerif.Lemmas.SyntaxLexWF
+import CedarVerif.Lemmas.SyntaxTokOK
 import CedarVerif.Cedar.Eval
 /-
 C05 — policy text → AST → text round trip.  Property theorems (every `theorem` here is an obligation).
@@ -722,5 +723,115 @@ example : ∃ b, parsePolicy "p" ((lex "@a(\"x\")permit(principal,action,resourc
     cases hl : lex "@a(\"x\")permit(principal,action,resource)when{1<2}unless{false};".toList with
     | none => intro s hs; simp at hs
     | some ts => simpa using lex_tokWF _ ts hl
+
+/-! ### the printers only emit lexer-producible tokens; the round trip on characters -/
+
+/-- **`escape_debug` output is always one `STRINGLIT` body** `(\\.|[^"\\])*`, for EVERY escape table: no side condition of the
+form "the table escapes `"` and `\`" is needed, because in `char::escape_debug_ext` (model: `escapeChar`) the arms for
+`\0 \t \r \n \\ \" \'` come before the table lookups (`is_grapheme_extended`, `is_printable`), every escape emitted is `\` + a
+non-newline character, and the `\u{…}` payload is lower-case hex.  Hence every string token of the printers (string literals,
+entity ids, non-identifier attribute names / record keys, annotation values) lexes back as one token. -/
+theorem escapeStr_rawOK (mustEscape : Char → Bool) (s : List Char) : rawOK (escapeStr mustEscape s) = true :=
+  rawOK_escapeStr mustEscape s
+
+/-- same with the position-dependent table of `str::escape_debug` (first character vs the rest) -/
+theorem escapeStrAt_rawOK (mustEscape : Nat → Char → Bool) (i : Nat) (s : List Char) : rawOK (escapeStrAt mustEscape i s) = true :=
+  rawOK_escapeStrAt mustEscape s i
+
+/-- `like` patterns (`*`, `\*`, `escape_debug` of the other characters) -/
+theorem escapePattern_rawOK (mustEscape : Char → Bool) (p : Pattern) : rawOK (escapePattern mustEscape p) = true :=
+  rawOK_escapePattern mustEscape p
+
+-- what the unconditional arms are needed for: a raw quote / a trailing backslash / backslash-newline is not a string body
+example : rawOK ['a', '"'] = false ∧ rawOK ['a', '\\'] = false ∧ rawOK ['\\', '\n'] = false := by decide +kernel
+example : escapeStr (fun _ => false) ['a', '"', '\\', '\n'] = ['a', '\\', '"', '\\', '\\', '\\', 'n'] := by decide +kernel
+
+/-- **Every token of the expression printer is lexer-producible** (`TokOK`) on the parser image: bare identifiers are keywords,
+variable / method / extension-function names, components of valid type names, or attribute names / record keys that passed
+`is_normalized_ident`; string tokens hold `escape_debug` output; slots are `?principal` / `?resource`.  (`ParserImage` is used
+only through: type names valid, `call` names are extension names; proof: Lemmas/SyntaxTokOK.lean.) -/
+theorem printE_tokOK (mustEscape : Char → Bool) (e : Expr) (h : ParserImage e = true) :
+    ∀ t ∈ Print.expr mustEscape e, TokOK t = true :=
+  printE_tokOK_frag mustEscape e (parserImage_inFrag3 joinName_splitOn (sz3 e) e (Nat.le_refl _) h)
+
+/-- annotation keys are identifier-shaped.  In Rust the keys are `AnyId`s (identifier-shaped by construction); the model's
+`TemplateBody` keeps them as `String`s and `PolicyImage` does not constrain them (the token-level theorems do not need it), so on
+the character level it is an explicit invariant of the object — established by the parser (`parse_annKeysIdent`). -/
+def AnnKeysIdent (b : TemplateBody) : Bool := annKeysOK b.annotations
+
+/-- **Every token of the policy printer is lexer-producible** on the policy image with identifier-shaped annotation keys. -/
+theorem printPolicy_tokOK (mustEscape : Char → Bool) (b : TemplateBody) (h : PolicyImage b = true) (hk : AnnKeysIdent b = true) :
+    ∀ t ∈ printPolicy mustEscape b, TokOK t = true :=
+  allOK_mem (printPolicy_allOK mustEscape b (policyOKW_mono (fun _ => validTypeName_ok)
+    (fun e he => parserImage_inFrag3 joinName_splitOn (sz3 e) e (Nat.le_refl _) he) h) hk)
+
+/-- on well-formed tokens the policy parser only returns identifier-shaped annotation keys -/
+theorem parse_annKeysIdent (id : String) (ts : List Token) (b : TemplateBody) (hwf : TokWF ts) (h : parsePolicy id ts = some b) :
+    AnnKeysIdent b = true :=
+  parsePolicyF_annKeysOK _ id ts b hwf h
+
+-- `AnnKeysIdent` cannot be dropped: a `TemplateBody` in `PolicyImage` whose annotation key is the `String` "a b" prints (token
+-- level) to something the token-level parser reads back, but the rendered TEXT lexes to different tokens
+def badKeyPolicy : TemplateBody := { samplePolicy with annotations := [("a b", "")], nonScope := none }
+example : PolicyImage badKeyPolicy = true := by
+  simp [PolicyImage, badKeyPolicy, samplePolicy, policyOKW, sortedAnn, scopeOKW, refOKW, actionOKW, condOKW, validTypeName,
+    splitOn_NsUser] <;> decide
+example : lex (render (printPolicy (fun _ => false) badKeyPolicy)) ≠ some (printPolicy (fun _ => false) badKeyPolicy) := by
+  have hp : printPolicy (fun _ => false) badKeyPolicy =
+      [.at, .ident "a b", .lparen, .str [], .rparen, .ident "permit", .lparen,
+       .ident "principal", .eqeq, .slot "?principal", .comma, .ident "action", .comma,
+       .ident "resource", .ident "is", .ident "Ns", .dcolon, .ident "User", .ident "in", .slot "?resource", .rparen, .semi] := by
+    simp [printPolicy, badKeyPolicy, samplePolicy, printAnnots, printScope, printAction, printCond, printE, refExpr, nameTokens,
+      splitOn_NsUser, effectName, slotName, strTok]
+    decide
+  rw [hp]
+  decide +kernel
+
+/-- **C05 on characters, expression level**: for every AST of the parser image and every escape table, the rendered text of the
+printed expression lexes back to exactly the printed tokens, and lexing + parsing it gives the AST back. -/
+theorem expr_text_round_trip (mustEscape : Char → Bool) (e : Expr) (h : ParserImage e = true) :
+    lex (render (Print.expr mustEscape e)) = some (Print.expr mustEscape e) ∧
+    (lex (render (Print.expr mustEscape e))).bind Parse.expr = some e := by
+  have hl := lex_print _ (printE_tokOK mustEscape e h)
+  exact ⟨hl, by rw [hl]; exact parse_print_full mustEscape e h⟩
+
+/-- from text, expression level: whatever text the model lexer + parser accept, print → render → lex → parse gives the same AST -/
+theorem expr_text_round_trip_from_text (mustEscape : Char → Bool) (text : List Char) (ts : List Token) (e : Expr)
+    (hl : lex text = some ts) (h : Parse.expr ts = some e) :
+    (lex (render (Print.expr mustEscape e))).bind Parse.expr = some e :=
+  (expr_text_round_trip mustEscape e (parse_image ts (lex_tokWF text ts hl) e h)).2
+
+/-- **C05 on characters, policy level**: for every policy / template of the parser image (with identifier-shaped annotation
+keys) and every escape table, the rendered text of the printed policy lexes back to exactly the printed tokens, and
+lexing + parsing that text gives the same object. -/
+theorem text_round_trip (mustEscape : Char → Bool) (b : TemplateBody) (h : PolicyImage b = true) (hk : AnnKeysIdent b = true) :
+    lex (render (printPolicy mustEscape b)) = some (printPolicy mustEscape b) ∧
+    (lex (render (printPolicy mustEscape b))).bind (parsePolicy b.id) = some b := by
+  have hl := lex_print _ (printPolicy_tokOK mustEscape b h hk)
+  exact ⟨hl, by rw [hl]; exact policy_parse_print mustEscape b h⟩
+
+/-- **From text to text to object, no side hypothesis**: whatever policy TEXT the model lexer + parser accept, printing the parsed
+object (any escape table), rendering it as characters, lexing and parsing again gives the same object. -/
+theorem text_round_trip_from_text (mustEscape : Char → Bool) (id : String) (text : List Char) (ts : List Token) (b : TemplateBody)
+    (hl : lex text = some ts) (h : parsePolicy id ts = some b) :
+    (lex (render (printPolicy mustEscape b))).bind (parsePolicy b.id) = some b :=
+  have hwf := lex_tokWF text ts hl
+  (text_round_trip mustEscape b (policy_parse_image id ts b hwf h) (parse_annKeysIdent id ts b hwf h)).2
+
+-- non-vacuity: the sample template (annotation value with an escaped quote, slots, `is … in`, folded condition), sample3
+example : (lex (render (printPolicy (fun c => c.toNat ≥ 127) samplePolicy))).bind (parsePolicy "p0") = some samplePolicy :=
+  (text_round_trip _ samplePolicy samplePolicy_image (by decide)).2
+example : ∀ t ∈ printPolicy (fun c => c.toNat ≥ 127) samplePolicy, TokOK t = true :=
+  printPolicy_tokOK _ _ samplePolicy_image (by decide)
+example : (lex (render (Print.expr (fun c => c.toNat ≥ 127) sample3))).bind Parse.expr = some sample3 :=
+  (expr_text_round_trip _ sample3 (inFrag3_parserImage _ _ (Nat.le_refl _) sample3_inFrag3)).2
+-- from the text of the sample (tokens rendered with single spaces): lex, parse, print, render, lex, parse
+example : ∃ b, (lex (render samplePolicyTokens)).bind (parsePolicy "p0") = some b ∧
+    (lex (render (printPolicy (fun _ => true) b))).bind (parsePolicy b.id) = some b := by
+  have hl : lex (render samplePolicyTokens) = some samplePolicyTokens := lex_print _ (by decide +kernel)
+  cases h : parsePolicy "p0" samplePolicyTokens with
+  | none => have : (parsePolicy "p0" samplePolicyTokens).isSome = true := by rfl
+            rw [h] at this; cases this
+  | some b => exact ⟨b, by rw [hl]; exact h, text_round_trip_from_text _ "p0" _ _ b hl h⟩
 
 end Cedar.C05
